@@ -21,6 +21,7 @@ import (
 	"sync"
 
 	"github.com/grafana/cog/verifapi"
+	"gopkg.in/yaml.v3"
 )
 
 func init() {
@@ -123,19 +124,29 @@ func passFromAct(act J) (verifapi.Pass, string, error) {
 			fmt.Sprintf("passes:\n  - omit_fields: {fields: %s}\n", qlist(strs(act["fields"], fieldRefStr))), nil
 	case "add_fields":
 		fields, err := unprojFields(act["fields"])
-		return &verifapi.AddFields{Object: objRef(act["to"]), Fields: fields}, "", err
+		return &verifapi.AddFields{Object: objRef(act["to"]), Fields: fields},
+			yamlPass("add_fields", map[string]any{"to": objRefStr(act["to"]), "fields": fields}), err
 	case "add_object":
 		t, err := unprojType(jmap(act["as"]))
-		return &verifapi.AddObject{Object: objRef(act["object"]), As: t, Comments: jstrings(act["comments"])}, "", err
+		return &verifapi.AddObject{Object: objRef(act["object"]), As: t, Comments: jstrings(act["comments"])},
+			yamlPass("add_object", map[string]any{"object": objRefStr(act["object"]), "as": t, "comments": jstrings(act["comments"])}), err
 	case "duplicate_object":
 		return &verifapi.DuplicateObject{Object: objRef(act["object"]), As: objRef(act["as"]), OmitFields: jstrings(act["omit"])},
 			fmt.Sprintf("passes:\n  - duplicate_object: {object: %s, as: %s, omit_fields: %s}\n", q(objRefStr(act["object"])), q(objRefStr(act["as"])), qlist(jstrings(act["omit"]))), nil
 	case "retype_object":
 		t, err := unprojType(jmap(act["as"]))
-		return &verifapi.RetypeObject{Object: objRef(act["object"]), As: t, Comments: optComments(act["comments"])}, "", err
+		doc := map[string]any{"object": objRefStr(act["object"]), "as": t}
+		if c := optComments(act["comments"]); c != nil {
+			doc["comments"] = c // absent when not given: the YAML route must then leave the comments alone
+		}
+		return &verifapi.RetypeObject{Object: objRef(act["object"]), As: t, Comments: optComments(act["comments"])}, yamlPass("retype_object", doc), err
 	case "retype_field":
 		t, err := unprojType(jmap(act["as"]))
-		return &verifapi.RetypeField{Field: fieldRef(act["field"]), As: t, Comments: optComments(act["comments"])}, "", err
+		doc := map[string]any{"field": fieldRefStr(act["field"]), "as": t}
+		if c := optComments(act["comments"]); c != nil {
+			doc["comments"] = c
+		}
+		return &verifapi.RetypeField{Field: fieldRef(act["field"]), As: t, Comments: optComments(act["comments"])}, yamlPass("retype_field", doc), err
 	case "fields_set_required":
 		return &verifapi.FieldsSetRequired{Fields: fieldRefs(act["fields"])},
 			fmt.Sprintf("passes:\n  - fields_set_required: {fields: %s}\n", qlist(strs(act["fields"], fieldRefStr))), nil
@@ -186,6 +197,16 @@ func passFromAct(act J) (verifapi.Pass, string, error) {
 		return &verifapi.FilterSchemas{AllowedObjects: objRefs(act["objects"])}, "", nil
 	}
 	return nil, "", fmt.Errorf("unknown action %q", jstr(act["a"]))
+}
+
+// yamlPass renders one compiler pass as a compiler_passes YAML document; ast values (types, fields) are
+// marshalled by yaml.v3 itself, i.e. with exactly the keys the loader's structs declare.
+func yamlPass(name string, body map[string]any) string {
+	raw, err := yaml.Marshal(map[string]any{"passes": []any{map[string]any{name: body}}})
+	if err != nil {
+		return ""
+	}
+	return string(raw)
 }
 
 // blankMemberNames removes enum member names from a projected IR (prefix_objects_names).
@@ -621,6 +642,9 @@ func c15Replay(args []string) int {
 		okEdge := true
 		var realPost any
 		realErr := false
+		// the result of the FIRST route (direct / yaml) that does not conform: this is the real step TLC judges
+		var badPost any
+		badErr, haveBad := false, false
 		yr := 0
 		for _, viaYAML := range []bool{false, true} {
 			got, gotErr, problem := run(viaYAML)
@@ -653,6 +677,9 @@ func c15Replay(args []string) int {
 			}
 			if gotErr != wantErr {
 				okEdge = false
+				if !haveBad {
+					badPost, badErr, haveBad = got, gotErr, true
+				}
 				ex["real_err"] = gotErr
 				fails = append(fails, failure{fmt.Sprintf("C15/%s/error-expected=%v-got=%v/sel=%s", actName, wantErr, gotErr, sel), ex})
 				continue
@@ -671,6 +698,9 @@ func c15Replay(args []string) int {
 				continue
 			}
 			okEdge = false
+			if !haveBad {
+				badPost, badErr, haveBad = got, gotErr, true
+			}
 			classes, order := diffClasses(normalize(w), g)
 			ex["real"] = got
 			if len(order) == 0 {
@@ -722,6 +752,9 @@ func c15Replay(args []string) int {
 				write = true
 			}
 			if write {
+				if haveBad {
+					realPost, realErr = badPost, badErr
+				}
 				if realPost == nil {
 					realPost = []any{}
 				}
